@@ -120,7 +120,7 @@ def lex_multichar_comments(
 
     if ("/*", "*/") in comments:
         if char == "*":
-            if prev_char == "/":
+            if prev_char == "/" and preserve["state"] != Preserve.COMMENT:
                 return lexeme + "/*", dict(state=Preserve.COMMENT, end="*/")
             elif next_char == "/":
                 return lexeme + "*/", dict(state=Preserve.FALSE, end=None)
